@@ -164,6 +164,8 @@ func ghost_calls_BulkLoad() int                                            { pan
 func ghost_calls_newPanicError() int                                       { panic("ghost") }
 func ghost_calls_BulkReload() int                                          { panic("ghost") }
 func ghost_calls_Load() int                                                { panic("ghost") }
+func ghost_calls_evictFromMain() int                                       { panic("ghost") }
+func ghost_calls_scheduleDrainBuffers() int                                { panic("ghost") }
 func ghost_calls_Reload() int                                              { panic("ghost") }
 
 // ghost_waited(c): this operation has waited for call c (so c's outcome fields are final)
@@ -434,9 +436,9 @@ func estOf[K comparable](s *sketch[K], k K) uint64 {
 //@ macro ONDEL = ghost_calls_onDeletion(), ghost_calls_notifyDeletion()
 //@ macro WHOOKS = ghost_calls_ExpireAfterCreate(), ghost_ret_ExpireAfterCreate(), ghost_calls_ExpireAfterUpdate(), ghost_ret_ExpireAfterUpdate(), ghost_calls_weigher(), ghost_ret_weigher(), $RHOOKS
 // footprint of a maintenance run: the policies, the wheel, the table (evictions), and the removal notifications of the entries it evicts
-//@ macro MAINT0 = node::state, node::queueType, node::prev, node::next, node::prevExp, node::nextExp, ghost_tbl(*), ghost_calls(*), ghost_inWheel(*), ghost_inDeque(*), policy::weightedSize, policy::windowMaximum, policy::windowWeightedSize, policy::mainProtectedMaximum, policy::mainProtectedWeightedSize, policy::stepSize, policy::adjustment, policy::hitsInSample, policy::missesInSample, policy::previousSampleHitRate, Variable::*, Linked::*, sketch::*, ghost_calls_increment(), []uint64::*, cache::drainStatus, cache::evictionMutex, ghost_calls_evictNode(), ghost_calls_rand(), ghost_ret_rand(), $EVLOG, $ONDEL, $ATOMICEV
+//@ macro MAINT0 = ghost_calls_evictFromMain(), node::state, node::queueType, node::prev, node::next, node::prevExp, node::nextExp, ghost_tbl(*), ghost_calls(*), ghost_inWheel(*), ghost_inDeque(*), policy::weightedSize, policy::windowMaximum, policy::windowWeightedSize, policy::mainProtectedMaximum, policy::mainProtectedWeightedSize, policy::stepSize, policy::adjustment, policy::hitsInSample, policy::missesInSample, policy::previousSampleHitRate, Variable::*, Linked::*, sketch::*, ghost_calls_increment(), []uint64::*, cache::drainStatus, cache::evictionMutex, ghost_calls_evictNode(), ghost_calls_rand(), ghost_ret_rand(), $EVLOG, $ONDEL, $ATOMICEV
 // ... plus the call log of the maintenance steps and the clock reading of the sweep
-//@ macro MAINT = $MAINT0, ghost_calls_maintenance(), ghost_calls_runTask(), ghost_calls_expireNodes(), ghost_calls_evictNodes(), ghost_calls_DeleteExpired(), ghost_calls_deleteExpiredFromBucket(), ghost_calls_expireNode(), ghost_now(), ghost_clockRead(), task::*
+//@ macro MAINT = $MAINT0, ghost_calls_scheduleDrainBuffers(), ghost_calls_maintenance(), ghost_calls_runTask(), ghost_calls_expireNodes(), ghost_calls_evictNodes(), ghost_calls_DeleteExpired(), ghost_calls_deleteExpiredFromBucket(), ghost_calls_expireNode(), ghost_now(), ghost_clockRead(), task::*
 
 //@ macro CACHEFX0 = $MAINT, $EVLOG, $ONDEL, $ATOMICEV, $WHOOKS, ghost_calls(*), node::expiresAt, node::refreshableAt, ghost_calls_afterWrite(), ghost_calls_afterDelete(), ghost_queued(), ghost_calls_performCleanUp(), ghost_calls_afterWriteTask(), ghost_calls_runTask(), ghost_calls_getTask(), ghost_now(), ghost_clockRead(), ghost_calls_ExpireAfterRead(), ghost_ret_ExpireAfterRead(), task::*, ghost_buffered(*)
 
@@ -447,6 +449,7 @@ func estOf[K comparable](s *sketch[K], k K) uint64 {
 //@ immutable Cache.cache, cache.nodeManager, cache.hashmap, cache.evictionPolicy, cache.expirationPolicy, cache.stats, cache.clock, cache.singleflight, cache.withTime, cache.withExpiration, cache.withRefresh, cache.withEviction, cache.isWeighted, cache.withMaintenance, cache.withStats, cache.onDeletion, cache.onAtomicDeletion, cache.expiryCalculator, cache.refreshCalculator, cache.weigher, cache.executor, cache.readBuffer, cache.writeBuffer, cache.hasDefaultExecutor, policy.isWeighted, policy.sketch, policy.window, policy.probation, policy.protected, group.calls, G:hasExp, G:hasRefresh, G:hasWeight, G:hasSize, G:hasState, G:hasExpLinks, G:key, G:value, G:weight, call.key, call.isRefresh, call.isFake
 
 //@ func (*cache).scheduleDrainBuffers : C01 C03 C12 C20
+//@   counted
 //@   var tstar *task[K, V]
 //@   mode seq,itf
 //@   note how a run is triggered under concurrency (the drain-status CAS protocol, C14) is not applicable; verified here: what the function does on one goroutine, with the executor running the task at once ([seq]) or not at all ([itf])
@@ -806,6 +809,8 @@ func estOf[K comparable](s *sketch[K], k K) uint64 {
 //@   ensures [clock-stable] pre(ghost_clockRead()) ==> ghost_clockRead() && ghost_now() == pre(ghost_now())
 //@   ensures [events-outside-the-buffer-untouched] tstar != nil && !pre(ghost_buffered(tstar)) ==> tstar.n == pre(tstar.n) && tstar.old == pre(tstar.old) && tstar.writeReason == pre(tstar.writeReason) && tstar.deletionCause == pre(tstar.deletionCause)
 //@   ensures @seq [C13:the-eviction-lock-is-handed-back] !pre(mutexHeld(&c.evictionMutex)) ==> !mutexHeld(&c.evictionMutex)
+//@   site scheduleDrainBuffers: requires [C13:a-drain-is-scheduled-only-once-per-write] ghost_calls_scheduleDrainBuffers() == pre(ghost_calls_scheduleDrainBuffers())
+//@   ensures @seq [C13:a-write-outside-a-running-drain-schedules-one] pre(c.drainStatus.Load()) == idle || pre(c.drainStatus.Load()) == required ==> ghost_calls_scheduleDrainBuffers() != pre(ghost_calls_scheduleDrainBuffers())
 
 //@ func (*cache).performCleanUp : C05 C06 C04 C13
 //@   var tstar *task[K, V]
@@ -964,6 +969,14 @@ func estOf[K comparable](s *sketch[K], k K) uint64 {
 //@   ensures [C09:write-clears-call] c.singleflight.isInitialized.Load() ==> lpend(ghost_calls(c.singleflight.calls, key)) == nil
 //@   ensures [C20:quiet] ghost_hits() == pre(ghost_hits()) && ghost_misses() == pre(ghost_misses())
 //@   ensures [wiring-kept] pre(wired(c)) ==> wired(c)
+
+// The periodic clean-up goroutine of an expiring cache: every tick of the clock runs one maintenance pass, whatever the
+// drain status (this is what bounds the expiration latency by one tick independently of the executor).
+//@ func (*cache).periodicCleanUp : C13
+//@   requires cfg(c)
+//@   modifies *
+//@   loop 1: invariant [wiring] cfg(c)
+//@   site ProcessTick: requires [C13:every-tick-runs-a-clean-up] ghost_calls_performCleanUp() == iter(ghost_calls_performCleanUp()) + 1
 
 //@ func (*cache).CleanUp : C13 C04 C05
 //@   requires cfg(c)
@@ -1307,6 +1320,7 @@ func estOf[K comparable](s *sketch[K], k K) uint64 {
 //@   ensures [C07:window-overflow-demotes-never-removes] p.weightedSize == pre(p.weightedSize)
 
 //@ func (*policy).evictFromMain : C04 C05 C07 C18
+//@   counted
 //@   requires ghost_hasSize() && ghost_hasState() && wfPolicy(p)
 //@   modifies $POLFX, ghost_calls_evictNode()
 //@   callback evictNode: requires [C07:overflow-justified] p.weightedSize > p.maximum || uint64(weightOf(cb_n)) > p.maximum
@@ -1325,7 +1339,7 @@ func estOf[K comparable](s *sketch[K], k K) uint64 {
 
 //@ func (*policy).evictNodes : C04 C07
 //@   requires ghost_hasSize() && ghost_hasState() && wfPolicy(p)
-//@   modifies $POLFX, ghost_calls_evictNode()
+//@   modifies $POLFX, ghost_calls_evictNode(), ghost_calls_evictFromMain()
 //@   callback evictNode: requires [C07:overflow-justified] p.weightedSize > p.maximum || uint64(weightOf(cb_n)) > p.maximum
 //@   callback evictNode: requires [C07:zero-weight-pinned] weightOf(cb_n) != 0 || !alive(cb_n)
 //@   callback evictNode: requires [evicts-a-node] cb_n != nil
@@ -1335,6 +1349,7 @@ func estOf[K comparable](s *sketch[K], k K) uint64 {
 //@   callback evictNode: ensures [C06:one-notification-per-eviction] $EVDELTA == pre($EVDELTA)
 //@   ensures [C06:evictions-notified-one-to-one] $EVDELTA == pre($EVDELTA)
 //@   ensures [policy-wf-kept] wfPolicy(p)
+//@   ensures [C04:size-eviction-always-examines-the-main-space] ghost_calls_evictFromMain() == pre(ghost_calls_evictFromMain()) + 1
 
 //@ func (*cache).evictNode : C06 C07 C20 C05 C04
 //@   requires cfg(c) && c.singleflight != nil && n != nil && c.withMaintenance
